@@ -113,6 +113,42 @@ def oniom_case(ctx, rng, force=None):
     return True
 
 
+def oniom_two_capped_case(ctx, rng):
+    """two model fragments, each with its own broken bonds and link atoms: every fragment is capped on ITS bonds only;
+    the total is the low-level energy of the system plus, per fragment, E_high - E_low of that fragment capped at
+    the requested fractions (fragment molecules rebuilt here by hand)"""
+    from tangelo.problem_decomposition.oniom.oniom_problem_decomposition import ONIOMProblemDecomposition
+    from tangelo.problem_decomposition.oniom._helpers.helper_classes import Fragment, Link
+    geom = chain(rng, 6)
+    f1, f2 = round(rng.uniform(0.6, 1.1), 3), round(rng.uniform(0.6, 1.1), 3)
+    high = rng.choice(["CCSD", "FCI"])
+    case = {"kind": "oniom_two_capped", "geom": [[a, list(p)] for a, p in geom], "factors": [f1, f2], "high": high}
+    ctx.case(case, nontrivial=True, sample=False)
+    ctx.count("oniom:two-capped-fragments")
+
+    def cap(i_in, i_out, f):
+        A, B = np.array(geom[i_in][1]), np.array(geom[i_out][1])
+        return ("H", tuple(float(x) for x in A + f * (B - A)))
+    # fragment 1: atoms 0,1 (bond 1-2 cut; a second cap on 0 would be odd: cap twice on the same bond side is not needed,
+    # so fragments of two atoms in the middle are used: atoms 1,2 with bonds 1-0 and 2-3 cut; atoms 3,4 with 3-2 and 4-5 cut)
+    fr1, links1 = [1, 2], [Link(1, 0, f1, "H"), Link(2, 3, f1, "H")]
+    fr2, links2 = [3, 4], [Link(3, 2, f2, "H"), Link(4, 5, f2, "H")]
+    with warnings.catch_warnings():
+        warnings.simplefilter("ignore")
+        system = Fragment(solver_low="HF", options_low={"basis": "sto-3g"})
+        m1 = Fragment(solver_low="HF", options_low={"basis": "sto-3g"}, solver_high=high, options_high={"basis": "sto-3g"}, selected_atoms=fr1, broken_links=links1)
+        m2 = Fragment(solver_low="HF", options_low={"basis": "sto-3g"}, solver_high=high, options_high={"basis": "sto-3g"}, selected_atoms=fr2, broken_links=links2)
+        e = ONIOMProblemDecomposition({"geometry": geom, "fragments": [system, m1, m2]}).simulate()
+        g1 = [geom[1], geom[2], cap(1, 0, f1), cap(2, 3, f1)]
+        g2 = [geom[3], geom[4], cap(3, 2, f2), cap(4, 5, f2)]
+        ref = direct_energy(geom, "HF") + sum(direct_energy(g, high) - direct_energy(g, "HF") for g in (g1, g2))
+    if abs(e - ref) > 1e-7:
+        ctx.violation(f"ONIOM with two capped model fragments: E_ONIOM = {e!r}, E_low(system) + sum over fragments of (E_high - E_low) of the fragment "
+                      f"capped on its own broken bonds at fractions {f1}, {f2} = {ref!r}", case)
+        return False
+    return True
+
+
 def link_case(ctx, rng):
     from tangelo.problem_decomposition.oniom._helpers.helper_classes import Link
     n = rng.randint(2, 6)
@@ -345,6 +381,8 @@ def run(ctx):
         ok &= oniom_case(ctx, rng)
     for kind in ("same_levels", "whole_model", "whole_model_list")[:ctx.n(2, 3)]:
         ok &= oniom_case(ctx, rng, force=(kind, "3-21g"))
+    for _ in range(ctx.n(2, 10)):
+        ok &= oniom_two_capped_case(ctx, rng)
     for _ in range(ctx.n(150, 1500)):
         ok &= link_case(ctx, rng)
     for _ in range(ctx.n(6, 40)):
